@@ -47,7 +47,8 @@ def synth (cfg : CheckCfg) : List OTy → Node → Option OTy
     | _, _ => none
   | cs, .slice _ x from_ to =>
     match synth cfg cs x with
-    | some t => if sliceable cfg.dt t && synthBound cfg cs from_ && synthBound cfg cs to then some t else none
+    | some t =>
+      if sliceable cfg.dt t && synthBound cfg cs from_ && synthBound cfg cs to then some (sliceResult cfg.dt t) else none
     | none => none
   | cs, .method _ x name args nilsafe =>
     match synth cfg cs x with
@@ -100,7 +101,7 @@ def synth (cfg : CheckCfg) : List OTy → Node → Option OTy
       if !isBoolT ct then none
       else
         match synth cfg cs a, synth cfg cs b with
-        | some t1, some t2 => some (condType t1 t2)
+        | some t1, some t2 => some (condType cfg.dt t1 t2)
         | _, _ => none
     | none => none
   | cs, .array _ xs => if synthList cfg cs xs then some arrayTy else none
